@@ -57,7 +57,7 @@ func fieldName(t types.Type, idx int) string {
 	if !ok || idx >= st.NumFields() {
 		return fmt.Sprintf("#%d", idx)
 	}
-	return st.Field(idx).Name()
+	return canonFieldName(t, st.Field(idx).Name())
 }
 
 func fieldVar(t types.Type, idx int) *types.Var {
